@@ -758,7 +758,7 @@ func init() {
 		"git-sizer":                      "real binary built from the current /repo tree with the default toolchain and the shipped go.mod (engine B; -race build for C17)",
 		"git":                            "real git 2.39.5 behind /verif/bin/gitshim (records, re-chunks, delays, injects failures)",
 		"clock, pipes, OS scheduling":    "real (sampled, not decided): GOMAXPROCS 1/2/4/16 and proxy jitter perturb the interleaving",
-		"in-process variants (C17 only)": "engine A built with -race: same delivery order under different chunking, delays, pipe capacities and flush policies",
+		"in-process variants (C17 only)": "engine A built with -race from copies of git-sizer's sources with yield points inserted before every lock / channel operation / select and after every go statement: same delivery order under different chunking, delays, pipe capacities and flush policies, then 8 goroutine schedules at those yield points (GOMAXPROCS=1, decided by the plan)",
 	}
 	Register(&Prop{ID: "C13", Check: checkC13, Replay: judgeC13, Components: compB,
 		Rule: "engine B only (real git semantics are the point): generated repositories with reflogs, replace references for commits / trees / blobs and graft lines that add, drop or redirect parents; the real binary is started at the top of the work tree, in a subdirectory, inside .git, with GIT_DIR absolute and relative from an unrelated directory, on a bare / non-bare twin, in a linked worktree (also with the worktree's own detached HEAD as ROOT), in a subdirectory entered through a symbolic link (with and without a relative GIT_DIR containing ..) and as `git -C <dir> sizer`; one world in three spells out core.useReplaceRefs=true in one of four configuration scopes; stdout must be byte-identical across modes and the numbers equal the model evaluated on the stored graph (refs/replace/* being ordinary references); a real `git clone --depth 1` of the repository must be refused with an error and no report. non-trivial: the world carries replace refs or grafts; distinct by scenario hash"})
